@@ -308,7 +308,13 @@ def _cases(draw: Any, tier: str) -> Dict[str, Any]:
         return draw(_fan(tier))
     c = draw(sc.sched_case(tier=tier, modes=("ctl", "ctl", "free", "ctl-ex"), min_sites=2, max_sites=9,
                            wide=draw(st.integers(0, 3)) > 0, min_mc=draw(st.sampled_from([1, 2, 2, 3])), flags=draw(st.integers(0, 3)) == 0, sel_rate=0.15,
-                           seq_rate=0.15, prio=(-2, 4), faults=2, max_mc=4, profile_rate=0.25))
+                           seq_rate=0.15, prio=(-2, 4), faults=2, max_mc=4, profile_rate=0.25,
+                           n_debug=draw(st.sampled_from([0, 0, 2]))))
+    if c.get("debug") and c.get("failing"):
+        # a debug node that runs (RUN_DEBUG_NODES on) is a node like any other when it fails
+        dbg_ = [b["site"] for b in c["prog"]["body"] if c["prog"]["fns"][b["fn"]].get("debug")]
+        if dbg_ and draw(st.booleans()):
+            c["failing"] = [draw(st.sampled_from(dbg_))]
     if draw(st.integers(0, 5)) == 0:
         c["noframe"] = True
     if c.get("failing") and draw(st.integers(0, 3)) == 0:
